@@ -480,6 +480,47 @@ func init() {
 				}
 			}
 		}
+		c.Phase("views-across-the-script-change") // the unlocking script (not push-only) ends with an item and a part of it that shares its storage (a DUP / OVER / TUCK / PICK twin split in two); the locking script inspects them
+		{
+			pp := gen.Push
+			n = 0
+			twins := [][]byte{{0x76}, {0x01, 0x07, 0x78, 0x7c, 0x75}, {0x76, 0x7d, 0x75}, {0x00, 0x79}} // DUP | <7> OVER SWAP DROP | DUP TUCK DROP | 0 PICK
+			for _, L := range []int{2, 3, 8, 20, 33, 76, 300} {
+				for _, at := range []int{1, L / 2, L - 1} {
+					for ti, tw := range twins {
+						for arr := 0; arr < 4; arr++ {
+							for _, fl := range []uint32{0, uint32(scriptflag.UTXOAfterGenesis)} {
+								n++
+								if !c.Case(n) {
+									continue
+								}
+								r := c.Rand(n)
+								x := r.Bytes(L)
+								u := append(append(append(pp(x), tw...), gen.PushNum(int64(at))...), 0x7f) // x left right
+								var l []byte
+								switch arr {
+								case 0: // left || right is x again
+									l = []byte{0x7e, 0x87}
+								case 1: // the left part below the whole: x left right -> left x ; sizes and content
+									u = append(u, 0x75, 0x7c)
+									l = append(append(append([]byte{0x82}, gen.PushNum(int64(L))...), 0x88, 0x7c, 0x82), append(gen.PushNum(int64(at)), 0x88, 0x7e, 0xa8, 0x75, 0x51)...)
+								case 2: // only the halves are compared with pushes of their own
+									l = append(append(append(pp(x[at:]), 0x88), pp(x[:at])...), 0x88, 0x82, 0x75, 0x75, 0x51)
+								default: // the whole is changed by the locking script, the left part must stay
+									l = append(append([]byte{0x75, 0x7c, 0x83, 0x75}, pp(x[:at])...), 0x87)
+								}
+								in := progInput{Flags: fl, Ctx: defaultCtx(), Src: "views-across-the-script-change", Unlock: u, Lock: l}
+								if n%3 == 0 {
+									in.Ctx.HasTx = false
+								}
+								judge(c, &in)
+								c.Count(fmt.Sprintf("views-across-the-script-change:twin-%d:arrangement-%d", ti, arr))
+							}
+						}
+					}
+				}
+			}
+		}
 		c.Phase("signature-encodings") // the signature item (a window of the caller's unlocking script) in every encoding a lenient parser may try to tidy up: long-form lengths, padding, trailing bytes, components missing - the caller's scripts and transaction stay as they are whatever the verdict
 		{
 			n := uint64(0)
